@@ -186,6 +186,24 @@ Definition generate (b : block) : res block :=
   let h := set_merkle_root (b_hdr b) mr in
   Ok (mkBlock h (block_hash_of h) txs).
 
+(* the tx_index that Block::generate passes to tx.generate (and Transaction::generate_total_fees
+   writes into every output slip as tx_ordinal): a placeholder advances it by its replacement
+   count, any other transaction by one.  (u64 arithmetic; cannot wrap for a block that fits in memory.) *)
+Definition weight (t : tx) : N := if is_spv t then t_repl t else 1.
+
+Fixpoint tx_indices (i : N) (l : list tx) : list N :=
+  match l with
+  | [] => []
+  | t :: r => i :: tx_indices (i + weight t) r
+  end.
+
+(* the ordinals observable in a generated block: those of the transactions that have outputs *)
+Fixpoint out_ordinals (i : N) (l : list tx) : list N :=
+  match l with
+  | [] => []
+  | t :: r => (match t_to t with [] => [] | _ => [i] end) ++ out_ordinals (i + weight t) r
+  end.
+
 (* what the light client holds after fetching the lite block *)
 Definition receive (l : block) : res block := generate (wire l).
 
@@ -264,7 +282,8 @@ Record obs : Type := mkObs {
   o_root_lite : res hv;
   o_client : res block;
   o_root_client : res hv;
-  o_root_full : res hv
+  o_root_full : res hv;
+  o_client_ord : res (list N)   (* tx_ordinal of the output slips in the client's block, per transaction with outputs *)
 }.
 
 Definition observe (b : block) (ks : list N) : obs :=
@@ -274,11 +293,13 @@ Definition observe (b : block) (ks : list N) : obs :=
         (do l' <- l; generate_merkle_root l' false false)
         c
         (do c' <- c; generate_merkle_root c' false false)
-        (generate_merkle_root b false false).
+        (generate_merkle_root b false false)
+        (do c' <- c; Ok (out_ordinals 0 (b_txs c'))).
 
 Definition obs_eqb (a b : obs) : bool :=
   res_eqb block_eqb (o_lite a) (o_lite b)
   && res_eqb hv_eqb (o_root_lite a) (o_root_lite b)
   && res_eqb block_eqb (o_client a) (o_client b)
   && res_eqb hv_eqb (o_root_client a) (o_root_client b)
-  && res_eqb hv_eqb (o_root_full a) (o_root_full b).
+  && res_eqb hv_eqb (o_root_full a) (o_root_full b)
+  && res_eqb eqb_lN (o_client_ord a) (o_client_ord b).
